@@ -38,6 +38,7 @@ pub fn struct_from(state: &State, trait_name: &'static str) -> TokenStream {
     let error = quote! { <#field_type as #trait_path>::Err };
 
     quote! {
+        #[allow(deprecated)] // omit warnings on deprecated fields/variants
         #[automatically_derived]
         impl #impl_generics #trait_path for #input_type #ty_generics #where_clause {
             type Err = #error;
